@@ -9,10 +9,11 @@ from vf import core, e2, e3, reent, spaces
 
 PID = "C14"
 LEVEL = "model_checking"
-RULE = ("E2: breadth-first search over call histories on the real code (5 classes x 4 model configs, full operation "
-        "alphabet of 256 calls, depth 2 quick / +depth 3 on the reduced alphabet thorough); on every transition I1 (model "
+RULE = ("E2: breadth-first search over call histories on the real code (5 classes x 4 model configs; full operation "
+        "alphabet of 257 calls under the default and limit_sigma models, reduced alphabet of 127 under tau=0 and tau=2beta [thorough: full "
+        "everywhere]; depth 2, thorough adds depth 3 on the reduced alphabet); on every transition I1 (model "
         "snapshot unchanged) and I2 (bit-identical to the same call on a fresh model and fresh ratings with the same "
-        "values, other ids and names). E3: every schedule with <= b preemptions of harnesses H1-H6 (2-3 threads sharing "
+        "values, other ids and names). E3: every schedule with <= b preemptions of harnesses H1-H7 (2-3 threads sharing "
         "one model) at source-line and opcode granularity; each thread's result must be bit-identical to its solo result. "
         "Re-entrancy: every inner call executed inside every gamma invocation of every outer rate() on the same model. "
         "Seeds: the same exploration re-run under PYTHONHASHSEED in {0,1,2^32-1,VERIF_SEED} with different rating ids; "
@@ -31,12 +32,12 @@ def e3_plan(ctx):
     plan = []
     for kind in spaces.KINDS:
         if ctx.thorough:
-            for h in ("H1", "H2", "H3", "H4", "H6"):
+            for h in ("H1", "H2", "H3", "H4", "H6", "H7"):
                 plan.append((h, kind, "line", 2, 48))
                 plan.append((h, kind, "opcode", 1, 4))
             plan.append(("H5", kind, "line", 1, 8))
         else:
-            for h in ("H1", "H2", "H3", "H4", "H6"):
+            for h in ("H1", "H2", "H3", "H4", "H6", "H7"):
                 plan.append((h, kind, "line", 1, 1))
             for h in ("H1", "H2"):
                 plan.append((h, kind, "opcode", 1, 3))
@@ -50,7 +51,7 @@ def run_e3_unit(unit, ctx):
     if h == "census":
         return acc
     mk = e3.harness(h, kind)
-    res = e3.explore(mk, gran, bound, shard=(k, parts))
+    res = e3.explore(mk, gran, bound, shard=(k, parts), end_choices="serial" if (h == "H5" and not ctx.thorough) else "all")
     n = sum(res["executions"])
     acc.evals += n
     acc.add(f"e3_executions", n)
@@ -179,7 +180,7 @@ def main(ctx, t0):
     core.deterministic_ids(0)
     procs = seed_runs_start(ctx)
     # ---- E2
-    searches = [(k, c, "full") for k in spaces.KINDS for c in e2.MODEL_CFGS]
+    searches = [(k, c, "full" if c in ("default", "limit") or ctx.thorough else "reduced") for k in spaces.KINDS for c in e2.MODEL_CFGS]
     stats, acc = e2.explore(searches, 2, ctx, invs=INVS)
     stats3 = {}
     if ctx.thorough:
